@@ -184,6 +184,12 @@ class UserObjfunError(_np_for_exc.linalg.LinAlgError, OverflowError):
     pass
 
 
+def _positive(E, name):
+    v = E.real(name, npy=False, lo=0)
+    E.assume(v > 0)          # solve() rejects lh <= 0
+    return v
+
+
 def mk_controller(E, n, m, num_pts, npt_so_far, preset='default', with_h=False, xr=False, with_save=None,
                   maxfun_hi=None, objfun=None, kopt_minimal=True, scaling=False):
     """
@@ -200,7 +206,7 @@ def mk_controller(E, n, m, num_pts, npt_so_far, preset='default', with_h=False, 
     rhoend = E.real('rhoend', npy=False)
     x0 = M.xbase + M.points[0, :]
     C = Controller(objfun, (), M.xbase.copy(), M.fval_v[0, :].copy(), 1, M.xbase + M.sl, M.xbase + M.su, [], num_pts,
-                   rhobeg, rhoend, 0, 0, maxfun, params, None, False, h=M.h, lh=(E.real('lh', npy=False, lo=0) if with_h else None),
+                   rhobeg, rhoend, 0, 0, maxfun, params, None, False, h=M.h, lh=(_positive(E, 'lh') if with_h else None),
                    argsh=(), prox_uh=((lambda x, u, *a: x) if with_h else None), argsprox=())
     M.abs_tol = params("model.abs_tol")
     M.rel_tol = params("model.rel_tol")
